@@ -8,6 +8,7 @@ import (
 	"fmt"
 	"go/token"
 	"go/types"
+	"strings"
 
 	"rscheck/core"
 )
@@ -475,3 +476,237 @@ func ZeroWindow(res *SymResult, offsetFn string) (int, string) {
 // OpaqueOffsets is the Sym.Opaque predicate that keeps roffset / woffset as
 // calls (one maxlen / offset value per path).
 func OpaqueOffsets(f *types.Func) bool { return f.Name() == "roffset" || f.Name() == "woffset" }
+
+// XferSpec describes the byte transfer of one store operation for
+// TransferOnTraces. Args lists what the offset helper must be handed, in
+// parameter order: "len:<k>" (length of parameter k), "field:<name>" (the
+// receiver's field as it was on entry), "param:<k>" (parameter k).
+type XferSpec struct {
+	OffsetFn string
+	Read     bool // true: backing store -> caller's buffer
+	Args     []string
+}
+
+// TransferOnTraces checks, on the traces of a store operation walked with the
+// offset helper opaque, (1) the arguments of the offset helper and (2) that
+// the bytes moved are exactly the window [offset, offset+maxlen) of the
+// backing store and the front of the caller's buffer. Because values are
+// compared, not statements, the window may be spelled p.b[o:o+m],
+// p.b[o:][:m], through locals or a helper returning the slice, and for copy
+// the side that is not bounded by maxlen may be left open (copy moves the
+// shorter length; maxlen never exceeds either side by the clamp rule).
+func TransferOnTraces(res *SymResult, sp XferSpec, backing *types.Var) (argsV int, argsWhy string, winV int, winWhy string) {
+	if ok, why := res.Usable(); !ok {
+		return -1, why, -1, why
+	}
+	if res.Recv == nil || len(res.Params) == 0 || backing == nil {
+		return -1, "receiver / buffer parameter / backing field not identified", -1, "receiver / buffer parameter / backing field not identified"
+	}
+	isOff := func(e *Event) bool {
+		return e.Kind == EvCall && e.Callee != nil && e.Callee.Name() == sp.OffsetFn && e.Callee.Pkg() == res.Fn.Obj.Pkg()
+	}
+	buf := res.Params[0]
+	argsV, winV = -1, -1
+	argsWhy, winWhy = "no path calls "+sp.OffsetFn, "no path moves bytes"
+	setA := func(v int, why string) {
+		if argsV != 0 {
+			argsV, argsWhy = v, why
+		}
+	}
+	setW := func(v int, why string) {
+		if winV != 0 {
+			winV, winWhy = v, why
+		}
+	}
+	anyOff := false
+	for _, t := range res.Traces {
+		offs := t.Find(isOff)
+		if len(offs) > 1 {
+			setA(-1, "several calls of "+sp.OffsetFn+" on one path")
+			continue
+		}
+		ev, many := transferCount(t)
+		if many {
+			setW(-1, "several transfers on one path")
+			continue
+		}
+		if len(offs) == 0 {
+			if ev != nil {
+				setW(-1, "bytes are moved on a path that does not call "+sp.OffsetFn)
+			}
+			continue
+		}
+		o := offs[0]
+		anyOff = true
+		// (1) arguments
+		okA := len(o.Args) == len(sp.Args) && len(o.Results) == 2
+		for k := 0; okA && k < len(sp.Args); k++ {
+			want := (*Val)(nil)
+			var kind, name string
+			if i := strings.IndexByte(sp.Args[k], ':'); i > 0 {
+				kind, name = sp.Args[k][:i], sp.Args[k][i+1:]
+			}
+			switch kind {
+			case "len":
+				if idx := atoiSmall(name); idx < len(res.Params) {
+					want = VLenOf(res.Params[idx])
+				}
+			case "param":
+				if idx := atoiSmall(name); idx < len(res.Params) {
+					want = res.Params[idx]
+				}
+			case "field":
+				want = FieldAtEntry(res.Recv, fieldOfType(res.Recv.T, name))
+			}
+			if want == nil || o.Args[k] == nil || !(o.Args[k].Key() == want.Key() || LinEqual(o.Args[k], want)) {
+				okA = false
+			}
+		}
+		if okA {
+			setA(1, "")
+		} else {
+			var got []string
+			for _, a := range o.Args {
+				got = append(got, a.Key())
+			}
+			setA(0, "found "+sp.OffsetFn+"("+strings.Join(got, ", ")+")")
+		}
+		if ev == nil || len(o.Results) != 2 {
+			continue
+		}
+		// (2) window
+		maxlen, offset := o.Results[0], o.Results[1]
+		isBacking := func(v *Val) bool { return v != nil && v.K == VLeaf && v.Leaf.Kind == LField && v.Leaf.Field == backing }
+		// caller side: 1 = the buffer as is, 2 = buffer[:maxlen], 0 = wrong bound, -1 unknown
+		caller := func(v *Val) int {
+			switch {
+			case v == nil:
+				return -1
+			case v.Key() == buf.Key():
+				return 1
+			case v.K == VSlice && v.X.Key() == buf.Key():
+				if v.Y == nil && v.Z != nil && LinEqual(v.Z, maxlen) {
+					return 2
+				}
+				return 0
+			}
+			return -1
+		}
+		// store side: 1 = [offset:offset+maxlen], 2 = [offset:], 0 = wrong bounds, -1 unknown
+		store := func(v *Val) int {
+			if v == nil || v.K != VSlice || !isBacking(v.X) {
+				return -1
+			}
+			lo := v.Y
+			if lo == nil {
+				lo = VInt(0)
+			}
+			if !LinEqual(lo, offset) {
+				return 0
+			}
+			if v.Z == nil {
+				return 2
+			}
+			if LinEqual(VSub(v.Z, lo), maxlen) {
+				return 1
+			}
+			return 0
+		}
+		switch {
+		case ev.Builtin == "copy" && len(ev.Args) == 2:
+			dst, src := ev.Args[0], ev.Args[1]
+			cs, ss := caller(dst), store(src)
+			if !sp.Read {
+				cs, ss = caller(src), store(dst)
+			}
+			switch {
+			case ss == 1 && (cs == 1 || cs == 2), ss == 2 && cs == 2:
+				setW(1, "")
+			case ss == 0 || cs == 0:
+				setW(0, fmt.Sprintf("found copy(%s, %s) with maxlen=%s offset=%s", dst, src, maxlen, offset))
+			default:
+				setW(-1, fmt.Sprintf("cannot relate copy(%s, %s) to the window", dst, src))
+			}
+		case ev.Callee != nil && len(ev.Args) == 2:
+			wantName := "WriteAt"
+			if sp.Read {
+				wantName = "ReadAt"
+			}
+			cs := caller(ev.Args[0])
+			switch {
+			case ev.Callee.Name() != wantName:
+				setW(0, "the transfer is a "+ev.Callee.Name()+" call")
+			case !isBacking(ev.Recv):
+				setW(-1, "the file operated on is not the backing field")
+			case cs == 2 && LinEqual(ev.Args[1], offset):
+				setW(1, "")
+			case cs == 1 || cs == 0 || cs == 2:
+				setW(0, fmt.Sprintf("found %s(%s, %s) with maxlen=%s offset=%s", ev.Callee.Name(), ev.Args[0], ev.Args[1], maxlen, offset))
+			default:
+				setW(-1, fmt.Sprintf("cannot relate %s(%s, %s) to the window", ev.Callee.Name(), ev.Args[0], ev.Args[1]))
+			}
+		default:
+			setW(-1, "unrecognised transfer")
+		}
+	}
+	if !anyOff {
+		// no call at all: the ring arithmetic is not delegated to the checked helper
+		argsV, argsWhy = 0, "no call of "+sp.OffsetFn+" is reachable"
+	}
+	return
+}
+
+func atoiSmall(s string) int {
+	n := 0
+	for _, c := range s {
+		if c < '0' || c > '9' {
+			return 1 << 20
+		}
+		n = n*10 + int(c-'0')
+	}
+	return n
+}
+
+// HoldsBefore: wherever the offset helper is called ("roffset call") or bytes
+// are moved ("storage read"), the facts of the path imply `want`. It returns a
+// verdict per site kind.
+func HoldsBefore(res *SymResult, offsetFn string, want *Val) (offV, xferV int) {
+	if ok, _ := res.Usable(); !ok {
+		return -1, -1
+	}
+	offV, xferV = -1, -1
+	for _, t := range res.Traces {
+		for _, e := range t.Events {
+			isOff := e.Kind == EvCall && e.Callee != nil && e.Callee.Name() == offsetFn && e.Callee.Pkg() == res.Fn.Obj.Pkg()
+			if !isOff && !isTransfer(e) {
+				continue
+			}
+			ok := t.FactsAt(e).Holds(want)
+			v := &xferV
+			if isOff {
+				v = &offV
+			}
+			if !ok {
+				*v = 0
+			} else if *v == -1 {
+				*v = 1
+			}
+		}
+	}
+	return
+}
+
+// NeverStores: no path assigns the receiver's field `name`.
+func NeverStores(res *SymResult, name string) (int, string) {
+	if ok, why := res.Usable(); !ok {
+		return -1, why
+	}
+	for _, t := range res.Traces {
+		for _, e := range t.Events {
+			if IsStoreTo(e, name) && res.Recv != nil && e.Base.Key() == res.Recv.Key() {
+				return 0, "a path assigns " + name
+			}
+		}
+	}
+	return 1, ""
+}
